@@ -49,18 +49,31 @@ def _opt_value(e, name, st):
 
 def search_automaton(body, name):
     """Abstract interpretation of one search-loop body over the selection variable's state {N(one), S(ome)}.
-    Returns {state: {'hit': set((state', exit)), 'miss': set((state', exit, touched))}} where a hit is the path taking every
-    field-dependent condition positively, exit in fall|break|err."""
+    Every condition that does not test the selection is a *field condition* (its outcome depends on the visited field only).  A
+    field kind K is an assignment of outcomes to all field conditions; for each K and each state the body has exactly one path.
+    Returns (conds, {K: {state: (state', exit, touched)}}) with exit in fall|break|err."""
+    conds = []
+
+    def cid(c):
+        for i_, x in enumerate(conds):
+            if x is c:
+                return i_
+        conds.append(c)
+        return len(conds) - 1
+
     def block(stmts, st):
-        outs = [(st, 'fall', True, False, 0)]
+        outs = [(st, 'fall', {}, False)]
         for s_ in stmts:
             nxt = []
-            for (cur, ex, allpos, touched, npos) in outs:
+            for (cur, ex, dec, touched) in outs:
                 if ex != 'fall':
-                    nxt.append((cur, ex, allpos, touched, npos))
+                    nxt.append((cur, ex, dec, touched))
                     continue
-                for (c2, e2, a2, t2, n2) in stmt(s_, cur):
-                    nxt.append((c2, e2, allpos and a2, touched or t2, npos + n2))
+                for (c2, e2, d2, t2) in stmt(s_, cur):
+                    if any(k_ in dec and dec[k_] != v_ for k_, v_ in d2.items()):
+                        continue
+                    nd = dict(dec); nd.update(d2)
+                    nxt.append((c2, e2, nd, touched or t2))
             outs = nxt
         return outs
 
@@ -69,12 +82,15 @@ def search_automaton(body, name):
         if k == 'Local':
             if s_.get('init') is not None and (_mentions(s_['init'], name) or _has_jump(s_['init'])):
                 raise Unmodelled('let with the selection or a jump in a search loop')
-            return [(st, 'fall', True, False, 0)]
+            return [(st, 'fall', {}, False)]
         if k == 'Item':
-            return [(st, 'fall', True, False, 0)]
+            return [(st, 'fall', {}, False)]
         if k != 'Expr':
             raise Unmodelled('statement ' + k)
         return expr(s_['expr'], st)
+
+    def blk_or_expr(b, st):
+        return block(b['stmts'], st) if b['k'] == 'Block' else expr(b, st)
 
     def expr(e, st):
         k = e['k']
@@ -85,55 +101,87 @@ def search_automaton(body, name):
             els = e.get('else')
             def run_else():
                 if els is None:
-                    return [(st, 'fall', True, False, 0)]
-                return block(els['stmts'], st) if els['k'] == 'Block' else expr(els, st)
-            cs = es(c) if c['k'] != 'Let' else None
+                    return [(st, 'fall', {}, False)]
+                return blk_or_expr(els, st)
+            neg = False
+            cc = c
+            while cc['k'] == 'Unary' and cc.get('op') == '!':
+                neg = not neg
+                cc = cc['expr']
+                while cc['k'] == 'Paren':
+                    cc = cc['expr']
+            cs = es(cc) if cc['k'] != 'Let' else None
             if cs in (name + '.is_some()', name + '.is_none()'):
-                truth = (st == 'S') == (cs.endswith('is_some()'))
+                truth = ((st == 'S') == (cs.endswith('is_some()'))) != neg
                 return block(e['then']['stmts'], st) if truth else run_else()
-            if c['k'] == 'Let' and es(c['expr']) in (name, '&' + name) and pat_s(c['pat']).startswith('Some('):
-                return block(e['then']['stmts'], st) if st == 'S' else run_else()
+            if c['k'] == 'Let' and es(c['expr']).lstrip('&') in (name, name + '.as_ref()') and (pat_s(c['pat']).startswith('Some(') or pat_s(c['pat']) == 'None'):
+                truth = (st == 'S') == pat_s(c['pat']).startswith('Some(')
+                return block(e['then']['stmts'], st) if truth else run_else()
             if _mentions(c, name):
                 raise Unmodelled('condition over the selection: %s' % es(c)[:60])
             if _has_jump(c):
                 raise Unmodelled('jump inside a condition')
-            pos = [(a, b, ap, t, n + 1) for (a, b, ap, t, n) in block(e['then']['stmts'], st)]
-            neg = [(a, b, False, t, n) for (a, b, ap, t, n) in run_else()]
-            return pos + neg
+            i_ = cid(c)
+            pos = [(a, b, {**d_, i_: True}, t) for (a, b, d_, t) in block(e['then']['stmts'], st) if d_.get(i_, True) is True]
+            ng = [(a, b, {**d_, i_: False}, t) for (a, b, d_, t) in run_else() if d_.get(i_, False) is False]
+            return pos + ng
+        if k == 'Match':
+            sc = es(e['expr']).lstrip('&')
+            if sc in (name, name + '.as_ref()', name + '.is_some()', name + '.is_none()'):
+                for arm in e['arms']:
+                    if arm.get('guard') is not None:
+                        raise Unmodelled('guarded arm in a match over the selection')
+                    ps = pat_s(arm['pat'])
+                    if sc.endswith('is_some()') or sc.endswith('is_none()'):
+                        truth = (st == 'S') == sc.endswith('is_some()')
+                        hit = ps == '_' or ps == ('true' if truth else 'false')
+                    else:
+                        hit = ps == '_' or (ps == 'None' and st == 'N') or (ps.startswith('Some(') and st == 'S')
+                    if hit:
+                        return blk_or_expr(arm['body'], st)
+                raise Unmodelled('non-exhaustive model of a match over the selection')
+            if _mentions(e, name) or _has_jump(e):
+                raise Unmodelled('match involving the selection or a jump')
+            return [(st, 'fall', {}, False)]
         if k == 'Assign':
             if es(e['l_']) == name:
-                return [(_opt_value(e['r_'], name, st), 'fall', True, True, 0)]
+                return [(_opt_value(e['r_'], name, st), 'fall', {}, True)]
             if _mentions(e, name) or _has_jump(e):
                 raise Unmodelled('assignment involving the selection')
-            return [(st, 'fall', True, False, 0)]
+            return [(st, 'fall', {}, False)]
         if k == 'Break':
             if e.get('label') or e.get('expr'):
                 raise Unmodelled('labelled break')
-            return [(st, 'break', True, False, 0)]
+            return [(st, 'break', {}, False)]
         if k == 'Continue':
-            return [(st, 'next', True, False, 0)]
+            if e.get('label'):
+                raise Unmodelled('labelled continue')
+            return [(st, 'next', {}, False)]
         if k == 'Return':
             v = e.get('expr')
             if v is not None and v['k'] == 'Call' and es(v['func']) == 'Err':
-                return [(st, 'err', True, False, 0)]
+                return [(st, 'err', {}, False)]
             raise Unmodelled('return of a non-error inside a search loop')
         if _mentions(e, name) or _has_jump(e):
             raise Unmodelled('expression %s involving the selection or a jump' % k)
-        return [(st, 'fall', True, False, 0)]
+        return [(st, 'fall', {}, False)]
 
-    res = {}
-    for st in ('N', 'S'):
-        outs = block(body['stmts'], st)
-        maxpos = max(n for (_, _, _, _, n) in outs)
-        hit = set(); miss = set()
-        for (c2, ex, allpos, touched, n) in outs:
-            ex = 'fall' if ex == 'next' else ex
-            if allpos and n == maxpos and n > 0:
-                hit.add((c2, ex))
-            else:
-                miss.add((c2, ex, touched))
-        res[st] = {'hit': hit, 'miss': miss}
-    return res
+    paths = {st: block(body['stmts'], st) for st in ('N', 'S')}
+    n = len(conds)
+    if n > 8:
+        raise Unmodelled('more than 8 field conditions in one search loop')
+    import itertools
+    kinds = {}
+    for K in itertools.product((True, False), repeat=n):
+        row = {}
+        for st in ('N', 'S'):
+            m = [p_ for p_ in paths[st] if all(K[i_] == v_ for i_, v_ in p_[2].items())]
+            if len(m) != 1:
+                raise Unmodelled('%d paths for one field kind' % len(m))
+            c2, ex, _, touched = m[0]
+            row[st] = (c2, 'fall' if ex == 'next' else ex, touched)
+        kinds[K] = row
+    return conds, kinds
 
 
 def check_search_loops(S, d, var):
@@ -153,16 +201,28 @@ def check_search_loops(S, d, var):
             r = search_automaton(fe[0].node['body'], d.name)
         except Unmodelled as u:
             return 'UNANALYSABLE search loop at line %d: %s' % (Lc['line'], u)
-        for st in ('N', 'S'):
-            for (c2, ex, touched) in r[st]['miss']:
-                if c2 != st or ex != 'fall' or touched:
-                    return 'search loop at line %d: a field that does not meet the condition changes the selection or leaves the loop (%s -> %s, %s)' % (Lc['line'], st, c2, ex)
-        if r['N']['hit'] != {('S', 'fall')}:
-            return 'search loop at line %d: the first matching field is not designated (None -> %s)' % (Lc['line'], sorted(r['N']['hit']))
-        bad = [h for h in r['S']['hit'] if not (h[1] == 'err' or h == ('N', 'break'))]
-        if bad or not r['S']['hit']:
-            return ('search loop at line %d: a further matching field neither refuses nor resets-and-stops (Some -> %s): with more matching '
-                    'fields the ambiguity is resolved silently' % (Lc['line'], sorted(r['S']['hit'])))
-        out.append((L, sorted(r['S']['hit'])))
+        conds, kinds = r
+        hits = []
+        for K, row in kinds.items():
+            n_, s_ = row['N'], row['S']
+            if n_ == ('N', 'fall', False) and s_ == ('S', 'fall', False):
+                continue            # a field of this kind leaves the selection alone
+            if n_[0] == 'S' and n_[1] == 'fall' and (s_[1] == 'err' or (s_[0] == 'N' and s_[1] == 'break')):
+                hits.append((K, s_))
+                continue            # first hit designates; a further hit refuses, or resets and stops
+            kdesc = ', '.join('%s`%s`' % ('' if v_ else 'not ', es(conds[i_])[:40]) for i_, v_ in enumerate(K)) or 'any field'
+            if n_[1] == 'err' or s_[1] == 'err':
+                if n_[1] == 'err' and s_[1] == 'err':
+                    continue        # a field of this kind is refused outright
+            if n_ == ('N', 'fall', False) or n_[0] == 'N' and n_[1] == 'fall':
+                return ('search loop at line %d: for a field with %s an existing designation is changed or the loop is left (Some -> %s, %s) although such a field is never designated'
+                        % (Lc['line'], kdesc, s_[0], s_[1]))
+            if n_[0] == 'S' and n_[1] != 'fall':
+                return 'search loop at line %d: the search stops at the first matching field (%s), a second one is never seen' % (Lc['line'], kdesc)
+            return ('search loop at line %d: for a field with %s a further matching field neither refuses nor resets-and-stops (None -> %s/%s, Some -> %s/%s): with more '
+                    'matching fields the ambiguity is resolved silently' % (Lc['line'], kdesc, n_[0], n_[1], s_[0], s_[1]))
+        if not hits:
+            return 'search loop at line %d: no kind of field is ever designated' % Lc['line']
+        out.append((L, sorted(set(h[1] for h in hits))))
     return out
 
